@@ -277,10 +277,11 @@ def run(ctx):
                 combos = [(LABS[3], DEVW[1])] + ([] if quick else [(LABS[3], DEVW[0]), (LABS[0], DEVW[0]), (LABS[2], DEVW[1])])
             else:
                 combos = [(LABS[3], DEVW[1])]
+            wpool = pool if len(w) < 3 or alpha is COMMON else ["cliff"]
             for lab, dw in combos:
                 for ml in singles:
-                    add(w, lab, dw, ml, pool)
-            if len(w) <= 1 or not quick:
+                    add(w, lab, dw, ml, wpool)
+            if len(w) <= 1 or (len(w) == 2 and not quick):
                 for ml in pairs:
                     add(w, LABS[3], DEVW[1], ml, pool)
             if len(w) <= 1:  # idle family: no Identity layer, some device / measured wires carry no operation
